@@ -28,7 +28,34 @@ class Counter:
         return new, vs
 
 
+def _raises_in_package(case):
+    from molgri.space.translations import TranslationParser
+    return TranslationParser("[0.1, -0.2]").get_trans_grid()       # the package's own assertion fires
+
+
+def _raises_in_harness(case):
+    return {}["missing"]
+
+
+def exception_classes():
+    """an exception leaving the package is a verdict (ImplementationRaised); one raised by the harness is a harness error"""
+    from mc.core import ImplementationRaised, HarnessError
+    ctx = Ctx("quick", 0, sys.stderr, workers=2)
+    for serial in (True, False):
+        try:
+            ctx.pmap(_raises_in_package, [{"i": 0}, {"i": 1}], serial=serial, recheck=0)
+            raise AssertionError("no exception")
+        except ImplementationRaised as e:
+            assert e.items[0]["impl_error"]["where"].startswith("molgri/space/translations.py:"), e.items
+        try:
+            ctx.pmap(_raises_in_harness, [{"i": 0}, {"i": 1}], serial=serial, recheck=0)
+            raise AssertionError("no exception")
+        except HarnessError:
+            pass
+
+
 def main():
+    exception_classes()
     ctx = Ctx("quick", 0, sys.stderr, workers=2)
     good = explorer.bfs(ctx, Counter(False), depth=5)
     bad = explorer.bfs(ctx, Counter(True), depth=5)
